@@ -43,8 +43,16 @@ def main():
             demo_clean = sh("/venv/bin/python %s" % os.path.join(d, "demo.py"), env=dict(os.environ, PYTHONPATH="/repo"), timeout=600)
             tests = None
             if os.environ.get("SEED_RUN_TESTS"):
-                tr = sh("cd %s && /venv/bin/python -m pytest -q -p no:cacheprovider -n 16 -x 2>&1 | tail -1" % WT, timeout=1800)
-                tests = tr.stdout.strip()
+                # the existing suite with the change; timing flakes of a loaded machine (hypothesis deadlines) are
+                # re-run alone, serially, before the verdict
+                tr = sh("cd %s && /venv/bin/python -m pytest -q -p no:cacheprovider -n 8 --timeout=900 -rf 2>&1 | tail -60" % WT,
+                        timeout=3600)
+                failed = sorted(set(l.split()[1] for l in tr.stdout.splitlines() if l.startswith("FAILED ")))
+                tests = tr.stdout.strip().splitlines()[-1] if tr.stdout.strip() else "no output"
+                if failed:
+                    rr = sh("cd %s && /venv/bin/python -m pytest -q -p no:cacheprovider --timeout=900 %s 2>&1 | tail -3"
+                            % (WT, " ".join("'%s'" % f for f in failed)), timeout=3600)
+                    tests += " | re-run of %d failed alone: %s" % (len(failed), rr.stdout.strip().splitlines()[-1] if rr.stdout.strip() else "?")
             t0 = time.time()
             chk = sh("COXETER_REPO=%s ./check %s --tier quick" % (WT, pid), cwd=VERIF, timeout=3600)
             viol = [l for l in chk.stdout.splitlines() if l.startswith("VIOLATION")]
